@@ -460,6 +460,39 @@ pub fn hyphen_configs() -> Vec<Conv> {
         c.subs.push(s);
         c
     });
+    // the positional look-ahead has to know a subcommand by its aliases too
+    push("posalias:low-index-multiple+sub-alias", {
+        let mut c = CmdSpec::new("prog");
+        c.args.push(ArgSpec::flag("a", Some('a'), Some("alpha")));
+        let mut files = ArgSpec::pos("files", 1);
+        files.num_args = Some((1, None));
+        files.required = true;
+        c.args.push(files);
+        let mut t = ArgSpec::pos("target", 2);
+        t.required = true;
+        c.args.push(t);
+        let mut s = CmdSpec::new("sub");
+        s.aliases.push("sb".into());
+        s.visible_aliases.push("sv".into());
+        s.args.push(ArgSpec::flag("x", Some('x'), None));
+        c.subs.push(s);
+        c
+    });
+    push("posalias:allow_missing_positional+sub-alias", {
+        let mut c = CmdSpec::new("prog");
+        c.set(Setting::AllowMissingPositional);
+        c.args.push(ArgSpec::flag("a", Some('a'), Some("alpha")));
+        c.args.push(ArgSpec::pos("f", 1));
+        let mut s2 = ArgSpec::pos("s", 2);
+        s2.required = true;
+        c.args.push(s2);
+        let mut s = CmdSpec::new("sub");
+        s.aliases.push("sb".into());
+        s.visible_aliases.push("sv".into());
+        s.args.push(ArgSpec::flag("x", Some('x'), None));
+        c.subs.push(s);
+        c
+    });
     // `<host> <cmd>... ; [log]`: a terminated multi-value positional in second-to-last place
     push("posorder:terminated-multiple-before-optional", {
         let mut c = CmdSpec::new("prog");
@@ -511,6 +544,10 @@ pub fn suggest_alphabet() -> Vec<Vec<u8>> {
         .iter()
         .map(|s| s.as_bytes().to_vec())
         .collect()
+}
+
+pub fn posalias_alphabet() -> Vec<Vec<u8>> {
+    ["v", "w", "u", "sub", "sb", "sv", "-a", "--", "-x"].iter().map(|s| s.as_bytes().to_vec()).collect()
 }
 
 pub fn defer_alphabet() -> Vec<Vec<u8>> {
